@@ -62,6 +62,10 @@ def main():
                 meta = json.load(open(mp))
                 variants.append(("seeded/" + os.path.basename(d.rstrip("/")), os.path.join(d, "patch.diff"), 1,
                                  {"fires": meta.get("caught_by_expected", [meta["property"]]) if meta.get("caught", True) else [], "kind": "break" if meta.get("caught", True) else "missed"}))
+        # behaviour-preserving refactorings written by independent authors: every check must stay silent
+        for d in sorted(glob.glob(os.path.join(VERIF, "refactors/*/"))):
+            if os.path.exists(os.path.join(d, "patch.diff")):
+                variants.append(("refactors/" + os.path.basename(d.rstrip("/")), os.path.join(d, "patch.diff"), 1, {"fires": [], "kind": "refactor"}))
     if args.only:
         variants = [v for v in variants if args.only in v[0]]
     if args.names:
